@@ -95,6 +95,31 @@ def observe(job):
         if job.get('awslambda'):
             out = python_minifier.awslambda(src, entrypoint=job['awslambda'])
             base = python_minifier.awslambda(src, entrypoint='absent_entrypoint_name')
+        elif job.get('via_cli'):
+            # the command line tool over two modules in one run; the module observed is the SECOND one it reaches
+            import os
+            import shutil
+            from ..common import outdir
+            from .. import cli_run
+            root = os.path.join(outdir('fs'), 'c10_%s_%d' % (sha(job['id'])[:10], os.getpid()))
+            shutil.rmtree(root, ignore_errors=True)
+            os.makedirs(root)
+            first, second = os.path.join(root, 'a_first.py'), os.path.join(root, 'b_second.py')
+            for pth in (first, second):
+                with open(pth, 'w') as fh:
+                    fh.write(src)
+            argv = [first, second, '--in-place'] + (['--rename-globals'] if kw.get('rename_globals') else []) + ([] if kw.get('rename_locals', True) else ['--no-rename-locals'])
+            for key, flag in (('preserve_locals', '--preserve-locals'), ('preserve_globals', '--preserve-globals')):
+                if kw.get(key):
+                    argv += [flag, ','.join(kw[key])]
+            res = cli_run.run_main(argv, env_force=True)
+            if res['exit'] != 0:
+                raise RuntimeError('cli exit %s %s' % (res['exit'], res['exc']))
+            with open(second) as fh:
+                out = fh.read()
+            shutil.rmtree(root, ignore_errors=True)
+            kw2 = dict((k, v) for k, v in kw.items() if k not in ('preserve_locals', 'preserve_globals'))
+            base = python_minifier.minify(src, **kw2)
         else:
             out = python_minifier.minify(src, **kw)
             kw2 = dict(kw)
@@ -184,6 +209,9 @@ def run(args, rep):
                             jobs.append({'id': 'mod|%s|%d%d|L=%s|G=%s|%s%s' % (form, rl, rg, ','.join(pl), ','.join(pg), 'str' if as_string else 'list', bn), 'src': src,
                                          'opts': dict(base, **o), 'listed': listed, 'expect': {n: ids.count(n) for n, _k in listed}, 'other_kind': {},
                                          'all_text': alltext if form not in ('none',) and False else ''})
+    # the same lists given to the command line tool, in a run over two modules (every module of a run is minified under the same lists)
+    for j in [x for x in jobs if x['id'].startswith('mod|none|') and x['id'].endswith('|list') and (x['opts'].get('preserve_locals') or x['opts'].get('preserve_globals'))]:
+        jobs.append(dict(j, id=j['id'] + '+cli-second-module', via_cli=True))
     for ep in ('handler', 'helper_function', 'Handler'):
         src = MODULE.replace('{ALL}', '').replace('{DIR}', 'False')
         ids = identifiers(src)
